@@ -382,6 +382,22 @@ def a5_format(cfg, rep):
         l = A.lin(r.kid(0), st)
         rep.check(l is not None and A.holds(st, "==", l, L), "A5-format", "asprintf returns the formatted length", r.where,
                   "returned %s" % show(v), function=f.name, construct="length")
+    # an empty result is a result: no test of a pass's answer that is true for 0 leads only to the failure returns
+    from ..dataflow import decide_with
+    holders = set()
+    for e in f.all_elems():
+        if e.is_assign and e.op == "=" and e.kid(1) is not None and e.kid(1).strip() is not None and e.kid(1).strip().cls == "CallExpr" and e.kid(1).strip().callee == "vsnprintf":
+            holders.add(norm(e.kid(0)))
+    for b in f.blocks.values():
+        if b.cond is None or len(b.succs) != 2:
+            continue
+        for h in holders:
+            for val, sx in ((True, b.succs[0]), (False, b.succs[1])):
+                if decide_with(b.cond, h, 0) is val and decide_with(b.cond, h, -1) is not None and sx is not None:
+                    vals, _ = f.returns_from(sx)
+                    bad = bool(vals) and all(v is not None and v[0] == "c" and v[1] < 0 for v in vals)
+                    rep.check(not bad, "A5-format", "asprintf: a zero-length output is not a failure (`%s`)" % b.cond.text[:30], b.cond.where,
+                              "with the pass's answer 0 this test leads only to `return (-1)`: formatting an empty string fails", function=f.name, construct="empty-ok")
 
 
 def run(tier):
